@@ -45,6 +45,10 @@ func (self *BinaryConv) doGo(ctx context.Context, src string, desc *thrift.TypeD
 	}
 	ret, err := self.doRecurse(ctx, src, 0, desc, &p, req, depth)
 	*buf = p.Buf
+	if err == errNull {
+		// the whole value is null: nothing gets written
+		return nil
+	}
 	if err != nil {
 		return unwrapError(locateInput([]byte(src), ret), err)
 	}
@@ -331,11 +335,15 @@ func (self *BinaryConv) doRecurse(ctx context.Context, s string, jp int, desc *t
 						ret = jp
 
 						if err == errNull {
-							// unwind written field tag
+							// unwind written field tag, and regard the field as unset (like the native implementation)
 							p.Buf = p.Buf[:ks]
+							// NOTICE: request base is handled by the upper layer
+							if !ft.IsRequestBase() {
+								bm.Set(ft.ID(), ft.Required())
+							}
+						} else {
+							bm.Set(ft.ID(), thrift.OptionalRequireness)
 						}
-
-						bm.Set(ft.ID(), thrift.OptionalRequireness)
 					}
 
 				OBJECT_NEXT:
